@@ -1015,10 +1015,12 @@ def gen_ctrl_step(rng):
     unit = rng.choice(UNITS)
     sa = unit
     comps = [{"kind": "T", "start": 0, "steps": [sa], "initpull": False, "nout": 1, "inputs": []},
-             {"kind": "T", "start": 0, "steps": [unit * rng.choice([1, 2, 3])], "initpull": False, "nout": 0, "inputs": []},
+             {"kind": "T", "start": 0, "steps": [unit * rng.choice([1, 2, 3])], "initpull": False, "nout": 1, "inputs": []},
+             # the consumer also READS the controller: the controller is updated as a dependency of the consumer, i.e.
+             # between two evaluations of the consumer's announced time
              {"kind": "T", "start": 0, "steps": [unit * x for x in rng.sample([2, 3, 5, 7, 4], rng.choice([2, 3]))],
               "initpull": rng.random() < 0.3, "nout": 0, "step_by": 1,
-              "inputs": [{"src": [0, 0], "chain": [["pass"]] if rng.random() < 0.3 else []}]}]
+              "inputs": [{"src": [0, 0], "chain": [["pass"]] if rng.random() < 0.3 else []}, {"src": [1, 0], "chain": []}]}]
     order = list(range(3))
     rng.shuffle(order)
     pos = {old: new for new, old in enumerate(order)}
